@@ -108,6 +108,19 @@ pub fn emit_turbofish(ty: &Type, generics: &[&GenericParam]) -> Type {
     }
 }
 
+/// Converts enum variant name to the snake_case the same way
+/// `#[serde(rename_all = "snake_case")]` does.
+pub fn serde_snake_case(variant: &str) -> String {
+    let mut snake = String::new();
+    for (i, ch) in variant.char_indices() {
+        if i > 0 && ch.is_uppercase() {
+            snake.push('_');
+        }
+        snake.push(ch.to_ascii_lowercase());
+    }
+    snake
+}
+
 /// Trait for converting `Ident` to different cases preserving original [proc_macro2::Span].
 pub trait SvCasing {
     fn to_case(&self, case: convert_case::Case) -> Self;
